@@ -109,7 +109,7 @@ impl W {
 pub fn run(seed: u64, ntraces: usize) {
     let mut r = Rng::new(seed ^ 0x175);
     for t in 0..ntraces {
-        let d = t % 15;      // which directed schedule opens the trace
+        let d = t % 16;      // which directed schedule opens the trace
         let mut w = World::new();
         let owner = user_addr(1); let operator = user_addr(2); let relayer = user_addr(3);
         let users = vec![user_addr(4), user_addr(5), user_addr(6)]; let dest = user_addr(7);
@@ -248,6 +248,16 @@ pub fn run(seed: u64, ntraces: usize) {
                 else if d == 14 {   // inbound deployment in two steps with the nominated minter calling the new manager directly in between
                     script.extend([193u64, 45, 194, 23, 194, 45, 196]);
                 }
+                else if d == 15 {
+                    // (a) remote canonical deployment with an EMPTY destination chain for tokens that were never registered (EGLD: same call; ESDT: in the
+                    //     lookup callback): nothing may be bound to their canonical ids, and the canonical registration afterwards still works
+                    let u2 = g.users[1].clone();
+                    for (tk, gasv) in [(b"EGLD".to_vec(), 0u64), (tok2.clone(), 0), (b"EGLD".to_vec(), 777)] {
+                        g.its_tx("deployRemoteCanonical", &u2, "deployRemoteCanonicalInterchainToken", vec![tk.clone(), vec![]], gasv, &[], json!({"token": hx(&tk), "dchain": ""})); }
+                    // (b) the trusted address of the source chain is removed / replaced while a transfer with data is in flight and restored afterwards:
+                    //     the delivered message must end up executed and a second execute must be refused
+                    script.extend([22u64, 56, 1700, 51, 25, 24, 53, 197, 1700, 25, 54, 24, 53, 197, 1702, 52, 25, 24, 55, 197, 57]);
+                }
                 else {              // d == 13: message-type words outside the known range, direct and hub-wrapped
                     for i in 0..6u64 { script.push(2000 + i); script.push(2100 + i); }
                 }
@@ -264,8 +274,9 @@ pub fn run(seed: u64, ntraces: usize) {
             let has_pending = !g.pend.is_empty();
             let scripted = !script.is_empty();
             let a = if !script.is_empty() { script.remove(0) } else if has_pending && r.chance(1, 2) { 20 } else { *r.pick(&[0u64, 1, 2, 3, 3, 3, 4, 4, 4, 5, 5, 5, 6, 6, 6, 7, 7, 7, 7, 8, 9, 10, 11, 12, 12, 13, 14, 14, 15, 16, 17, 18, 19, 19]) };
-            let force_fail = a == 21; let force_props_ok = a == 22; let force_issue_ok = a == 23; let force_cb = a == 24;
-            let a = if a == 21 || a == 22 || a == 23 || a == 24 { 20 } else { a };
+            let a_raw = a; let a = if a == 56 || a == 57 { 0 } else { a };
+            let force_fail = a == 21; let force_props_ok = a == 22; let force_issue_ok = a == 23; let force_cb = a == 24; let force_ok = a == 25;
+            let a = if a == 21 || a == 22 || a == 23 || a == 24 || a == 25 { 20 } else { a };
             // 1<a><vv>: inbound message kind a (6, 7, 8) in routing variant vv; 20<i> / 21<i>: message-type word i (direct / hub-wrapped); 3<shape><chain> / 35..: outbound transfer / call; 190..192: inbound link / deploy for an already bound token id (direct, hub-wrapped, deploy)
             let mut fvar: Option<u64> = None; let mut fbound: Option<u64> = None;
             let mut ftype: Option<u64> = None; let mut fshape: Option<(u64, u64)> = None;
@@ -288,6 +299,16 @@ pub fn run(seed: u64, ntraces: usize) {
                         g.its_tx("execute", &g.relayer.clone(), "execute", vec![b"ethereum".to_vec(), id.clone(), b"0xITSeth".to_vec(), payload.clone()], 0, &[],
                             json!({"chain": hx(b"ethereum"), "id": hx(&id), "src": hx(b"0xITSeth"), "payload": hx(&payload), "ph": hx(&keccak(&payload)), "label": "in6/reapproved"})); } }
                 continue; }
+            if a == 197 { // the last inbound message executed once more, exactly as it was (no new approval)
+                if let Some((chain, id, src, payload)) = g.last_in.clone() {
+                    g.its_tx("execute", &g.relayer.clone(), "execute", vec![chain.clone(), id.clone(), src.clone(), payload.clone()], 0, &[],
+                        json!({"chain": hx(&chain), "id": hx(&id), "src": hx(&src), "payload": hx(&payload), "ph": hx(&keccak(&payload)), "label": "in/again"})); }
+                continue; }
+            if a == 53 || a == 54 || a == 55 { // the owner sets a trusted address: ethereum back to its peer (53), ethereum to another address (54), the hub back (55)
+                let (chain, addr): (&[u8], &[u8]) = if a == 53 { (b"ethereum", b"0xITSeth") } else if a == 54 { (b"ethereum", b"0xOther") } else { (b"axelar", b"axelar1hub") };
+                let ow = g.owner.clone();
+                g.its_tx("setTrusted", &ow, "setTrustedAddress", vec![chain.to_vec(), addr.to_vec()], 0, &[], json!({"chain": hx(chain), "a": hx(addr)}));
+                continue; }
             if a == 194 { // step 2 of the last inbound message: the same execute call with the issue cost attached
                 if let Some((chain, id, src, payload)) = g.last_in.clone() {
                     g.its_tx("execute", &g.relayer.clone(), "execute", vec![chain.clone(), id.clone(), src.clone(), payload.clone()], ISSUE_COST, &[],
@@ -300,7 +321,7 @@ pub fn run(seed: u64, ntraces: usize) {
                     else if a >= 1000 { fvar = Some((a - 1000) % 100); (a - 1000) / 100 } else { a };
             match a {
                 0 => { // registerCanonicalInterchainToken
-                    let token = match r.below(5) { 0 => b"EGLD".to_vec(), 1 => b"bad".to_vec(), 2 => tok2.clone(), _ => tok.clone() };
+                    let token = if a_raw == 56 { b"EGLD".to_vec() } else if a_raw == 57 { tok2.clone() } else { match r.below(5) { 0 => b"EGLD".to_vec(), 1 => b"bad".to_vec(), 2 => tok2.clone(), _ => tok.clone() } };
                     let (ok, rets, dep) = g.its_tx("registerCanonical", &anyone, "registerCanonicalInterchainToken", vec![token.clone()], 0, &[], json!({"token": hx(&token)}));
                     if ok { let tm = dep.unwrap(); g.toks.push(Tok { id: rets.last().unwrap().clone(), kind: "lock", tm: tm.clone(), token: Some(token.clone()), salt: vec![], deployer: anyone.clone(), supply: 0, minter: vec![], custody: 0 }); }
                 }
@@ -577,14 +598,14 @@ pub fn run(seed: u64, ntraces: usize) {
                     let mut i = r.below(g.pend.len() as u64) as usize;
                     if force_issue_ok { if let Some(j) = g.pend.iter().position(|p| matches!(p.kind, PKind::Issue(..))) { i = j; } }
                     if force_props_ok { if let Some(j) = g.pend.iter().position(|p| matches!(p.kind, PKind::Props(..))) { i = j; } }
-                    if force_fail { if let Some(j) = g.pend.iter().position(|p| matches!(p.kind, PKind::Transfer(_, None))) { i = j; } }
+                    if force_fail || force_ok { if let Some(j) = g.pend.iter().position(|p| matches!(p.kind, PKind::Transfer(_, None))) { i = j; } }
                     if force_cb { if let Some(j) = g.pend.iter().position(|p| matches!(p.kind, PKind::Transfer(_, Some(_)))) { i = j; } }
                     let its_addr = g.its.clone();
                     let pid = g.pend[i].id;
                     let advance = match &mut g.pend[i].kind {
                         PKind::Transfer(p, res @ None) => {
                             // destination call: tokens attached to the promise leave the service iff it succeeds
-                            let ok = if force_fail { false } else { r.chance(1, 2) };
+                            let ok = if force_fail { false } else if force_ok { true } else { r.chance(1, 2) };
                             let transfers = g.w.r.blockchain_mock.vm.builtin_functions.extract_token_transfers(&multiversx_sc_scenario::multiversx_chain_vm::tx_mock::async_call_tx_input(&p.call, multiversx_sc_scenario::multiversx_chain_vm::tx_mock::CallType::AsyncCall));
                             let egld = p.call.call_value.clone(); let to = transfers.real_recipient.clone();
                             let esdts: Vec<(Vec<u8>, BigUint)> = transfers.transfers.iter().map(|t| (t.token_identifier.clone(), t.value.clone())).collect();
